@@ -525,6 +525,12 @@ func e4RunBody(c e4Case, started chan<- *e4Env) (res *e4Result) {
 		defer submitMu.Unlock()
 		q := e4Req{Idx: s.Idx, Kind: s.Kind, QoS: s.QoS, Step: s, PreConn: !connStarted, InOutage: held}
 		var err error
+		if c.Cfg.DirectQoS0 && s.Kind == "pub" && s.QoS == 0 && rc.Client() == nil {
+			// With DirectlyPublishQoS0 a QoS0 publish goes straight to the current BaseClient; before the first
+			// SetClient there is none (the library dereferences nil then).  Outside every listed property: not submitted.
+			log.add(0, "SKIP", nil, fmt.Sprintf("pub idx=%d q0: direct mode and no client yet", s.Idx))
+			return
+		}
 		switch s.Kind {
 		case "pub":
 			q.Tag = fmt.Sprintf("m%d", s.Idx)
@@ -1015,6 +1021,8 @@ func e4GenConfig(rt *rapid.T) e4Config {
 		RespTimeoutMs:  rapid.SampledFrom([]int{0, 0, 60000}).Draw(rt, "respTimeoutMs"),
 		OnErrorSleepUs: rapid.SampledFrom([]int{0, 0, 0, 1500, 3000}).Draw(rt, "onErrorSleepUs"),
 		GrantMax:       rapid.SampledFrom([]int{0, 0, 0, 1, 2}).Draw(rt, "grantMax"),
+		// DirectlyPublishQoS0: QoS0 messages bypass the queue (C03 forces the default mode, which is what it speaks of)
+		DirectQoS0: rapid.IntRange(0, 3).Draw(rt, "directQoS0") == 0,
 	}
 }
 
